@@ -7,7 +7,7 @@ import PagexmlModel.Lemmas.C18Pos
 
 namespace Pagexml.C18
 
-theorem columnRanges_all {thr mcw : Int} (lines : List Line) (hm : ¬ mcw > 0) :
+theorem columnRanges_all {thr mcw : Int} (lines : List Line) (hm : mcw ≤ 0) :
     columnRanges thr mcw lines = gapIntervals thr (pixels lines) := by
   unfold columnRanges
   apply List.filter_eq_self.mpr
@@ -17,7 +17,7 @@ theorem columnRanges_all {thr mcw : Int} (lines : List Line) (hm : ¬ mcw > 0) :
   omega
 
 /-- without a minimum width every line of positive width lands in the column of its interval -/
-theorem extra_nil_of_mcw {thr mcw : Int} {lines : List Line} (hpos : PosW lines) (hm : ¬ mcw > 0) :
+theorem extra_nil_of_mcw {thr mcw : Int} {lines : List Line} (hpos : PosW lines) (hm : mcw ≤ 0) :
     extraLines lines (columnRanges thr mcw lines) = [] := by
   apply List.filter_eq_nil_iff.mpr
   intro l hl
@@ -52,7 +52,7 @@ theorem levelOK_nil (ranges : List (Int × Int)) : LevelOK [] ranges [] := by
   · intro c hc; cases hc
   · intro ρ _ hne; exact absurd rfl hne
 
-theorem split_pos_inner (n : Nat) (thr : Int) {mcw : Int} (hm : ¬ mcw > 0) (g : RegInfo)
+theorem split_pos_inner (n : Nat) (thr : Int) {mcw : Int} (hm : mcw ≤ 0) (g : RegInfo)
     (lines : List Line) (hpos : PosW lines) :
     ∃ cols1, split (n + 1) thr mcw g lines = .ok cols1 ∧
       LevelOK lines (gapIntervals thr (pixels lines)) cols1 := by
@@ -72,7 +72,7 @@ theorem split_pos (n : Nat) (thr mcw : Int) (g : RegInfo) (lines : List Line) (h
         (gapIntervals thr (pixels (extraLines lines (columnRanges thr mcw lines)))) cols2 := by
   obtain ⟨cols0, cols1, h0, h1, hlev, hpa⟩ := level_pos g thr mcw lines hpos
   have hstart : split (n + 2) thr mcw g lines =
-      handleExtra (split (n + 1) thr 0) g cols1 (extraLines lines (columnRanges thr mcw lines)) mcw := by
+      handleExtra (split (n + 1) thr recMcw) g cols1 (extraLines lines (columnRanges thr mcw lines)) mcw := by
     show split ((n + 1) + 1) thr mcw g lines = _
     rw [split_succ]
     simp only [h0, h1, bind, Except.bind]
@@ -82,39 +82,41 @@ theorem split_pos (n : Nat) (thr mcw : Int) (g : RegInfo) (lines : List Line) (h
     refine ⟨cols1, [], by simp [reId_nil], ?_, levelOK_nil _⟩
     exact hlev
   | cons e es =>
-    have hm : mcw > 0 := by
+    have hm0 : mcw > 0 := by
       apply Classical.byContradiction
       intro hm
-      have := extra_nil_of_mcw (thr := thr) hpos hm
+      have := extra_nil_of_mcw (thr := thr) hpos (by omega : mcw ≤ 0)
       rw [hex] at this
       cases this
+    have hm : mcw > recGuard := by have := consts_recursion_stops.2; omega
     have hposE : PosW (e :: es) := by
       intro l hl
       rw [← hex] at hl
       exact hpos l (mem_extraLines.mp hl).1
-    obtain ⟨cols2, h2, hlev2⟩ := split_pos_inner n thr (mcw := 0) (by omega) (extraReg g (bbox e es)) (e :: es) hposE
+    obtain ⟨cols2, h2, hlev2⟩ := split_pos_inner n thr (mcw := recMcw) (by have := consts_recursion_stops; omega) (extraReg g (bbox e es)) (e :: es) hposE
     refine ⟨cols1, cols2, ?_, hlev, hlev2⟩
     simp [hullBox, hm, h2]
 
 /-! ### groups of lines at one level -/
 
-/-- no hole of `max thr 2` pixels between any two lines of the group: the group's own pixels
+/-- no hole of `max thr gapMin` pixels between any two lines of the group: the group's own pixels
     follow each other at distances below the (effective) gap threshold -/
 def GapConnected (thr : Int) (G : List Line) : Prop :=
   ∀ a ∈ G, ∀ b ∈ G, ∀ x, a.box.l ≤ x → x < b.box.r →
-    ∃ m ∈ G, ∃ y, m.box.l ≤ y ∧ y ≤ m.box.r ∧ x < y ∧ y < x + max thr 2
+    ∃ m ∈ G, ∃ y, m.box.l ≤ y ∧ y ≤ m.box.r ∧ x < y ∧ y < x + max thr gapMin
 
 /-- two lines on different sides of a clean gap are never within the same gap interval -/
 theorem sep_in_level {thr : Int} {L : List Line} (hpos : PosW L) {cut : Int}
-    (hnb : ∀ l ∈ L, l.box.r ≤ cut ∨ cut + max thr 2 ≤ l.box.l)
+    (hnb : ∀ l ∈ L, l.box.r ≤ cut ∨ cut + max thr gapMin ≤ l.box.l)
     {ρ : Int × Int} (hρ : ρ ∈ gapIntervals thr (pixels L)) {a b : Line} (ha : a ∈ L) (hb : b ∈ L)
     (hita : hit a ρ = true) (hitb : hit b ρ = true) (hac : a.box.r ≤ cut)
-    (hbc : cut + max thr 2 ≤ b.box.l) : False := by
+    (hbc : cut + max thr gapMin ≤ b.box.l) : False := by
   have sa := (hit_iff_spanIn thr ha (hpos a ha) hρ).mp hita
   have sb := (hit_iff_spanIn thr hb (hpos b hb) hρ).mp hitb
   unfold spanIn at sa sb
   have pa := hpos a ha
   have pb := hpos b hb
+  have hN := consts_min_gap_ge_two
   obtain ⟨y, hy, h1, h2, _⟩ := gapIntervals_dense thr (pixels_sorted L) ρ hρ cut (by omega) (by omega)
   obtain ⟨m, hm, m1, m2⟩ := mem_pixels.mp hy
   rcases hnb m hm with h | h <;> omega
@@ -133,6 +135,7 @@ theorem together_in_level {thr : Int} {L : List Line} (hpos : PosW L) {G : List 
   unfold spanIn at s0 sb
   have p0 := hpos a0 (hG a0 ha0)
   have pb := hpos b hbL
+  have hN := consts_min_gap_ge_two
   -- chain from a0 to the right end of b inside ρ
   have c1 : b.box.r ≤ ρ.2 := by
     apply chain_in_interval thr hs hρ (a := a0.box.l) (by omega)
